@@ -318,7 +318,7 @@ func (p *sparser) quant() SExpr {
 		p.next()
 		var tr []SExpr
 		for {
-			tr = append(tr, p.add())
+			tr = append(tr, p.cmp())
 			if !p.accept(",") {
 				break
 			}
